@@ -136,8 +136,44 @@ static void shape_block(int m, int l, int n, int units, int rich) {
   }
 }
 
+/* factors that are two distinct views into ONE parent (common top-left corner, or side by side): the product must not depend on
+   how the factors are related in memory - only the identical object may take the squaring route */
+static void alias_case(int m, int l, int n, int layout, int route, int param) {
+  static const char *rn[] = {"mzd_mul(NULL)", "mzd_addmul", "mzd_mul_m4rm(NULL)", "mzd_mul_naive(NULL)", "mzd_mul(C)"};
+  if (!vx_case_begin("%s|p=%d|alias-layout=%d|%dx%dx%d", rn[route], param, layout, m, l, n)) return;
+  int pr = (m > l ? m : l) + (layout == 2 ? 3 : 0), pc = layout == 0 ? (l > n ? l : n) : (64 * ((l + 63) / 64) + n);
+  pm *P = pm_pat(pr, pc, (pat){P_PR, 0, 21});
+  mzd_t *Pz = mzd_from_pm(P);
+  int ar = layout == 2 ? 3 : 0;
+  mzd_t *A = mzd_init_window(Pz, ar, 0, ar + m, l), *B = layout == 0 ? mzd_init_window(Pz, 0, 0, l, n) : mzd_init_window(Pz, 0, 64 * ((l + 63) / 64), l, 64 * ((l + 63) / 64) + n);
+  pm *Ap = pm_sub(P, ar, 0, ar + m, l), *Bp = layout == 0 ? pm_sub(P, 0, 0, l, n) : pm_sub(P, 0, 64 * ((l + 63) / 64), l, 64 * ((l + 63) / 64) + n);
+  pm *AB = pm_mul(Ap, Bp), *C0 = pm_pat(m, n, (pat){P_PR, 0, 9}), *E = route == 1 ? pm_add(C0, AB) : pm_copy(AB);
+  mzd_t *C = (route == 1 || route == 4) ? mzd_from_pm(C0) : NULL, *R = NULL;
+  switch (route) { case 0: R = mzd_mul(NULL, A, B, param); break; case 1: R = mzd_addmul(C, A, B, param); break; case 2: R = mzd_mul_m4rm(NULL, A, B, param); break; case 3: R = mzd_mul_naive(NULL, A, B); break; case 4: R = mzd_mul(C, A, B, param); break; }
+  if (!mzd_eq_pm(R, E)) vx_fail(rn[route], "product(aliased-views)", "%dx%dx%d layout %d parameter %d: factors are two views of one matrix (%s); result differs from the reference product", m, l, n, layout, param, layout == 0 ? "common top-left corner" : layout == 1 ? "side by side" : "overlapping rows");
+  if (mzd_padding_dirty(R) >= 0) vx_fail(rn[route], "padding", "%dx%dx%d aliased views", m, l, n);
+  VX_CHECK(mzd_eq_pm(Pz, P), rn[route], "operand-unchanged", "%dx%dx%d: parent of the aliased views modified", m, l, n);
+  vx_input(pm_hash(P) ^ ((uint64_t)route << 56) ^ ((uint64_t)layout << 52) ^ ((uint64_t)(param + 1) << 40) ^ ((uint64_t)m << 28) ^ ((uint64_t)n << 14), 1);
+  if (R && R != C) mzd_free(R);
+  if (C) mzd_free(C);
+  mzd_free(A); mzd_free(B); mzd_free(Pz);
+  pm_free(P); pm_free(Ap); pm_free(Bp); pm_free(AB); pm_free(C0); pm_free(E);
+  vx_case_end();
+}
+
 void prop_enumerate(void) {
   const char *mode = vx_arg("mode", "grid");
+  if (!strcmp(mode, "alias")) {
+    static const int DQ[] = {1, 33, 64, 65, 128, 130, 200}, DT[] = {1, 17, 33, 63, 64, 65, 100, 127, 128, 129, 130, 200, 320};
+    const int *D = vx_tier ? DT : DQ; int nd = vx_tier ? 13 : 7;
+    static const int CUTS[] = {0, 64, 128};
+    for (int a = 0; a < nd; a++) for (int b = 0; b < nd; b++) for (int c = 0; c < nd; c++) for (int layout = 0; layout < 3; layout++) {
+      int m = D[a], l = D[b], n = D[c];
+      if (!vx_tier && !(m == n || a == c + 1 || b == c)) continue; /* quick: square results (the squaring-route shapes) and a diagonal slice */
+      for (int route = 0; route < 5; route++) for (int ci = 0; ci < ((route == 2 || route == 3) ? 1 : 3); ci++) alias_case(m, l, n, layout, route, route == 2 ? 0 : CUTS[ci]);
+    }
+    return;
+  }
   if (!strcmp(mode, "grid")) {
     static const int Q[] = {1, 16, 17, 54, 64, 65, 128, 129};
     static const int T[] = {1, 2, 15, 16, 17, 53, 54, 55, 63, 64, 65, 85, 86, 100, 127, 128, 129, 170, 171, 191, 192, 193, 200, 255, 256, 257};
